@@ -538,8 +538,13 @@ func Gen(seed int64, i int) *Spec {
 			b.add(Step{Op: "holdinit", Tx: t})
 			b.submit(t, true)
 			b.add(Step{Op: "waitheld"})
-			if rng.Intn(2) == 0 {
+			switch rng.Intn(4) {
+			case 0:
 				b.confirm(b.confirmTarget(), true, "handler-busy")
+			case 1, 2:
+				// The very transaction whose first announcement is in
+				// flight is reported confirmed meanwhile.
+				b.confirm(t, true, "own-initial-broadcast-in-flight")
 			}
 			if !sp.Tick && rng.Intn(2) == 0 {
 				b.add(Step{Op: "block", Async: true})
